@@ -1598,7 +1598,9 @@ func (r *flashRun) request(bi int, kind string, depth int) {
 		}
 		s.Logf("op%d hop location=%q new-cookie=%v store=%s", op.id, resp.Get("Location"), wire.live, outcome)
 	}
-	if has && kind != "nest" {
+	// (a consumer that goes on to open a file has fasthttp build its file handler, tables that are set up once per
+	// process included: that is not the cost of decoding and is not measured)
+	if has && kind != "nest" && op.failCode > -2 {
 		bound := uint64(64<<10 + 64*len(cookie))
 		if os.Getenv("FLASH_DEBUG_ALLOC") != "" {
 			fmt.Fprintf(os.Stderr, "alloc op%d cookie=%d delta=%d bound=%d\n", op.id, len(cookie), delta, bound)
